@@ -415,6 +415,85 @@ func verifPostObject(r verifReal, attachments int) (object.Object, []verifMark) 
 	return o, expect
 }
 
+/*
+	Narrow terminals: media and frames inside nested blocks, followed by further links, rendered at widths
+	where the inner blocks have no room left.  The link list is collected once (at width 80); the numbers
+	shown at every other width must still be 1..N in order and open their own targets.
+*/
+func verifNarrow(out *verifkit.Trace, rng *rand.Rand, count int) {
+	for c := 0; c < count; c++ {
+		depth := rng.Intn(13)
+		open, close := "", ""
+		for d := 0; d < depth; d++ {
+			switch rng.Intn(3) {
+			case 0:
+				open, close = open+"<blockquote>", "</blockquote>"+close
+			case 1:
+				open, close = open+"<ul><li>", "</li></ul>"+close
+			default:
+				open, close = open+"<div>", "</div>"+close
+			}
+		}
+		target := func(k int) string { return fmt.Sprintf("https://t.example/d9%03d/%d", c, k) }
+		inner := []string{
+			fmt.Sprintf(`<iframe src="%s" title="L1"></iframe>`, target(1)),
+			fmt.Sprintf(`<img src="%s" alt="L1">`, target(1)),
+			fmt.Sprintf(`<video src="%s" alt="L1"></video>`, target(1)),
+			fmt.Sprintf(`<a href="%s">L1</a>`, target(1)),
+			fmt.Sprintf(`<audio src="%s" alt="L1"></audio>`, target(1))}[rng.Intn(5)]
+		doc := open + inner + close + fmt.Sprintf(`<p><a href="%s">L2</a> <img src="%s" alt="L3"></p>`, target(2), target(3))
+		expect := []verifMark{{T: "tok", Id: "L1"}, {T: "lab", Target: target(1)}, {T: "tok", Id: "L2"}, {T: "lab", Target: target(2)}, {T: "tok", Id: "L3"}, {T: "lab", Target: target(3)}}
+		o, expect := verifPostObject(verifReal{markup: "html", media: "text/html", text: doc, expect: expect}, rng.Intn(3))
+		post, err := NewPostFromObject(o, nil)
+		if err != nil {
+			continue
+		}
+		n := 0
+		for _, m := range expect {
+			if m.T == "lab" {
+				n++
+			}
+		}
+		sel := []string{}
+		for k := -1; k <= n+2; k++ {
+			link := "panic"
+			verifkit.Try(func() {
+				target, _, present := post.SelectLink(k)
+				link = target
+				if !present {
+					link = "none"
+				}
+			})
+			sel = append(sel, link)
+		}
+		for _, w := range []int{6 + rng.Intn(6), 12 + rng.Intn(10), 22 + rng.Intn(20), 80} {
+			var rendered string
+			p2, what2 := verifkit.Try(func() { rendered = post.String(w) })
+			/* a token may be cut in two where there is no room; the (one-character) numbers cannot: judge those */
+			marks, wanted := []verifMark{}, []verifMark{}
+			for _, m := range verifReadMarks(rendered) {
+				if m.T == "lab" {
+					marks = append(marks, m)
+				}
+			}
+			for _, m := range expect {
+				if m.T == "lab" {
+					wanted = append(wanted, m)
+				}
+			}
+			if w == 80 {
+				marks, wanted = verifReadMarks(rendered), expect
+			}
+			ev := verifkit.M{"ev": "links", "markup": "html", "w": w, "marks": marks, "expect": wanted,
+				"sel": sel, "doc": verifkit.Clip(doc, 300), "panic": p2, "narrow": true}
+			if p2 {
+				ev["what"] = what2
+			}
+			out.Emit(ev)
+		}
+	}
+}
+
 func TestVerifMarkup(t *testing.T) {
 	var in struct {
 		Docs   [][]verifNode `json:"docs"`
@@ -425,6 +504,7 @@ func TestVerifMarkup(t *testing.T) {
 	out := verifkit.Out()
 	defer out.Close()
 	rng := verifkit.Rand()
+	defer verifNarrow(out, rng, in.Random)
 	docs := in.Docs
 	for i := 0; i < in.Random; i++ {
 		if i%8 == 0 {
